@@ -115,6 +115,9 @@ pub(crate) enum State {
 #[cfg_attr(feature = "defmt-03", derive(defmt::Format))]
 pub enum Error {
     NotJoined,
+    /// The uplink cannot be assembled: application data on FPort 0 (reserved for MAC commands),
+    /// or a frame that would exceed the 255 bytes a LoRa packet can carry.
+    InvalidPayload,
     #[cfg(feature = "multicast")]
     Multicast(multicast::Error),
 }
@@ -189,6 +192,9 @@ impl Mac {
     ) -> Result<(radio::TxConfig, RxWindows, FcntUp)> {
         let fcnt = match &mut self.state {
             State::Joined(session) => {
+                if !session.can_send(send_data) {
+                    return Err(Error::InvalidPayload);
+                }
                 Ok(session.prepare_buffer::<N>(send_data, buf, &self.configuration, &self.region))
             }
             State::Otaa(_) => Err(Error::NotJoined),
